@@ -26,6 +26,9 @@ type c14Case struct {
 	// Preempt: the worker processing update PreUpd is suspended at the PreNth-th
 	// acquisition of a store lock on its way (-1 = no preemption).
 	PreUpd, PreNth int
+	// NoGroup: no other alert keeps the aggregation group alive: the burst's
+	// updates find no live group and whichever is processed first creates it.
+	NoGroup bool
 }
 
 func perms(n int) [][]int {
@@ -91,6 +94,22 @@ func c14PreemptCases() []c14Case {
 
 var c14Pre = c14PreemptCases()
 
+// c14NoGroupCases: bursts of 2 and 3 updates of an alert that has no live group,
+// every kind sequence and release order, 2 and 4 workers.
+func c14NoGroupCases() []c14Case {
+	var out []c14Case
+	for _, c := range c14Enumerate(3) {
+		if c.Workers == 2 || c.Workers == 4 {
+			c.PreUpd, c.PreNth = -1, -1
+			c.InBurst, c.NoGroup = true, true
+			out = append(out, c)
+		}
+	}
+	return out
+}
+
+var c14NoGroup = c14NoGroupCases()
+
 func c14Gen(seed uint64, tier string) *Plan {
 	var c c14Case
 	rng := NewRng(seed)
@@ -99,6 +118,8 @@ func c14Gen(seed uint64, tier string) *Plan {
 		c.PreUpd, c.PreNth = -1, -1
 	} else if int(seed) < len(c14Cases)+len(c14Pre) {
 		c = c14Pre[int(seed)-len(c14Cases)]
+	} else if int(seed) < len(c14Cases)+len(c14Pre)+len(c14NoGroup) {
+		c = c14NoGroup[int(seed)-len(c14Cases)-len(c14Pre)]
 	} else {
 		c.PreUpd, c.PreNth = -1, -1
 		// beyond the enumeration: sampled k = 4..5, optional creation inside the burst
@@ -135,7 +156,9 @@ func c14Gen(seed uint64, tier string) *Plan {
 	other := map[string]string{"alertname": "X", "job": "j2"} // keeps the group alive
 	lk := labelsKey(labels)
 	t0 := 10 * time.Second
-	p.Actions = append(p.Actions, Action{At: t0, Kind: "post", Alerts: []PAlert{{Labels: other}}})
+	if !c.NoGroup {
+		p.Actions = append(p.Actions, Action{At: t0, Kind: "post", Alerts: []PAlert{{Labels: other}}})
+	}
 	burst := t0 + gw + 7*time.Second // after the first flush
 	if !c.InBurst {
 		p.Actions = append(p.Actions, Action{At: t0 + 1*time.Millisecond, Kind: "post", Alerts: []PAlert{{Labels: labels, Annotations: map[string]string{"v": "0"}}}})
@@ -170,7 +193,7 @@ func c14Gen(seed uint64, tier string) *Plan {
 	p.Actions = append(p.Actions, Action{At: settle + time.Millisecond, Kind: "get_alerts", Str: "settled"})
 	p.Horizon = burst + gi + 30*time.Second
 	p.Actions = append(p.Actions, Action{At: p.Horizon - time.Second, Kind: "get_groups", Str: "final"})
-	p.Params = map[string]any{"case_key": fmt.Sprintf("k%d kinds%v perm%v w%d b%v pre%d/%d", c.K, c.Kinds, c.Perm, c.Workers, c.InBurst, c.PreUpd, c.PreNth), "labels": lk, "last_kind": lastKind, "last_at": int64(lastAt), "burst": int64(burst), "k": c.K, "perm": c.Perm, "kinds": c.Kinds, "workers": c.Workers, "in_burst": c.InBurst}
+	p.Params = map[string]any{"case_key": fmt.Sprintf("k%d kinds%v perm%v w%d b%v pre%d/%d ng%v", c.K, c.Kinds, c.Perm, c.Workers, c.InBurst, c.PreUpd, c.PreNth, c.NoGroup), "labels": lk, "last_kind": lastKind, "last_at": int64(lastAt), "burst": int64(burst), "k": c.K, "perm": c.Perm, "kinds": c.Kinds, "workers": c.Workers, "in_burst": c.InBurst}
 	return p
 }
 
@@ -309,11 +332,11 @@ func init() {
 		Gen: c14Gen, Check: c14Check,
 		Count: func(tier string) int {
 			if tier == "thorough" {
-				return len(c14Cases) + len(c14Pre) + 3000
+				return len(c14Cases) + len(c14Pre) + len(c14NoGroup) + 3000
 			}
-			return len(c14Cases) + len(c14Pre)
+			return len(c14Cases) + len(c14Pre) + len(c14NoGroup)
 		},
-		Rule:        "case n < 720: the n-th element of {k=2,3} x {refresh,resolve,refire}^k x all k! release orders of the ingestion workers x {2,3,4,8} workers (complete enumeration); cases 720..1151: bursts of two updates where, in addition, the worker processing one of them is preempted at its j-th store-lock acquisition (j = 0..5, both updates, both release orders, 2 and 4 workers); beyond that sampled k=4..5 with the group-creating update optionally inside the burst. Non-trivial: the settled GET /alerts/groups was answered and at least one oracle clause was evaluated; distinct: by abstract trace hash.",
+		Rule:        "case n < 720: the n-th element of {k=2,3} x {refresh,resolve,refire}^k x all k! release orders of the ingestion workers x {2,3,4,8} workers (complete enumeration); cases 720..1151: bursts of two updates where, in addition, the worker processing one of them is preempted at its j-th store-lock acquisition (j = 0..5, both updates, both release orders, 2 and 4 workers); cases 1152..1511: bursts of 2 and 3 updates of an alert that has no live aggregation group (whichever update is processed first creates it), every kind sequence and release order, 2 and 4 workers; beyond that sampled k=4..5 with the group-creating update optionally inside the burst. Non-trivial: the settled GET /alerts/groups was answered and at least one oracle clause was evaluated; distinct: by abstract trace hash.",
 		Real:        []string{"app.New wiring", "api/v2 handlers", "provider/mem", "dispatch (ingestion workers, aggregation groups)", "notify pipeline", "webhook notifier + net/http client"},
 		Stub:        []string{"clock (synctest)", "receiver endpoint (net.Pipe + scripted http.Server)", "worker scheduling decided by hold rules at verifhook.Yield(dispatch.worker.recv)"},
 		Assumptions: []string{"the release order of ingestion workers is imposed by content-keyed delays at one yield point between channel receive and routeAlert; interleavings inside routeAlert are whatever one P produces"},
